@@ -1,3 +1,15 @@
 -- REGENERATED from /repo by `vh extract` on every run. Do not edit.
 namespace Sqlc.Gen
+/-- per `{{if eq .Cmd …}}` block of queryCode / interfaceCode:
+ (cmd, method results, interface results, driver entry with prepared queries, driver entry without,
+  number of `err != nil` checks, checked rows.Close, checked rows.Err, has Scan, defer rows.Close) -/
+def templateContract : List (String × String × String × String × String × Nat × Bool × Bool × Bool × Bool) := [
+  (":exec", "error", "error", "exec", "ExecContext", 0, false, false, false, false),
+  (":execresult", "(sql.Result, error)", "(sql.Result, error)", "exec", "ExecContext", 0, false, false, false, false),
+  (":execrows", "(int64, error)", "(int64, error)", "exec", "ExecContext", 1, false, false, false, false),
+  (":many", "([]T, error)", "([]T, error)", "query", "QueryContext", 4, true, true, true, true),
+  (":one", "(T, error)", "(T, error)", "queryRow", "QueryRowContext", 0, false, false, true, false)
+]
+def templateFixedIdents : List String := ["Close", "DBTX", "New", "Prepare", "Querier", "Queries", "WithTx", "exec", "query", "queryRow"]
+def templateHasQuerierAssertion : Bool := true
 end Sqlc.Gen
